@@ -154,7 +154,7 @@ Files(m, l) ==
   \o (IF sh = "nomod" THEN <<>> ELSE <<F(S_dotmod, ModOf(m, l))>>)
   \o (IF sh = "tiny" THEN <<>>
       ELSE <<F(S_gomod, ModOf(m, l)), F(S_hidden, S_h), F(S_xgo, S_pkgx \o S_layoutcomment \o Digits(LayoutIdx(l)) \o <<NL>>),
-             F(S_ygo, S_pkgdir), F(S_keep, <<>>), F(S_gitcfg, S_core)>>
+             F(S_ygo, S_pkgdir), F(S_keep, <<>>), F(S_nested, S_h), F(S_gitcfg, S_core)>>
            \o (IF l = "dir" THEN <<F(S_bin, <<0, 255, 1>>)>> ELSE <<>>))
 
 Items == {[mv |-> m, layout |-> l] : m \in 1..N, l \in Range(Layouts)}
